@@ -361,14 +361,13 @@ Definition snap_clean (sn : snap) : bool :=
 Definition items_of_ksteps (l : list kstep) : list item :=
   flat_map (fun s => match s with KItem it => [it] | _ => [] end) l.
 
-(* the property on one observation, without the model of the callers: no crash on deliverable
-   sequences, no wedge, every colour handed to a caller is Color(0) or the colour of a report,
+(* the property on one observation, without the model of the callers: neither a crash nor a
+   wedge on deliverable sequences (the harness reads the queue), every colour handed to a caller is Color(0) or the colour of a report,
    delivered before, that names what the caller asked for; and the answer half for a call that
    meets no leftovers *)
 Definition ccase_violation (c : ccase) : bool :=
   let '((bits, sn0), _, (code, tr, _)) := c in
-  if code =? 1 then forallb wf_item (items_of_ksteps tr)
-  else if code =? 2 then true
+  if (code =? 1) || (code =? 2) then forallb wf_item (items_of_ksteps tr)
   else negb (answers_ok [] tr && (negb (snap_clean sn0) || fresh_ok (caps_of_bits bits) tr)).
 
 Definition c03_colour_mismatches (cases : list ccase) : list Z := bad_indices ccase_mismatch cases.
